@@ -9,7 +9,8 @@
    (line and continuations); "never out of fuel" is the statement that no loop
    of the parser spins on any input. *)
 From PV Require Import Base.Prelude Cmd.CLex Cmd.Parser Cmd.ParserProofs Cmd.Utf7Ok
-     Cmd.Grammar Cmd.GrammarProofs Cmd.Commands Cmd.CommandsProofs.
+     Cmd.Grammar Cmd.GrammarProofs Cmd.Commands Cmd.CommandsProofs Cmd.SuffixProofs
+     Cmd.JustProofs.
 
 (* Commands.parse, for every line, every list of continuation data, every
    configuration (max_append_len, recursion budget) and every behaviour of the
@@ -68,6 +69,18 @@ Theorem C06_reparse_terminates_partial : forall o cfg line supplied,
   end.
 Proof. exact read_command_terminates. Qed.
 Print Assumptions C06_reparse_terminates_partial.
+
+(* A continuation request is never spurious: when Commands.parse interrupts
+   for n literal bytes, the line or one of the continuations received so far
+   ends with a synchronizing literal header "{n}" CRLF (optionally "~{n}",
+   never the non-synchronizing "{n+}"). *)
+Theorem C06_continuation_justified : forall o cfg line conts n,
+  parse_command o cfg line conts = OInterrupt n ->
+  exists B, In B (line :: conts) /\
+    exists s, sfx s B /\
+      exists bin ds, lex_literal_hdr s = Some ((bin, ds, false), []) /\ digits_value ds = n.
+Proof. exact interrupt_justified. Qed.
+Print Assumptions C06_continuation_justified.
 
 (* _run_state: in every connection state, with any count of previous BADs,
    for every line and continuation data, if the command bodies keep their
